@@ -94,8 +94,8 @@ fn choose_case(calls: usize) {
     }
     kani::cover!(n_chosen == calls, "witness: all chosen indices distinct");
     if calls >= 2 {
-        kani::cover!(n_chosen < calls, "witness: the same match chosen twice");
-        kani::cover!(chosen[K - 1] && !chosen[0], "witness: the last match is chosen, the first is not");
+        kani::cover!(n_chosen < calls, "info: the same match chosen twice");
+        kani::cover!(chosen[K - 1] && !chosen[0], "info: the last match is chosen, the first is not");
     }
     std::mem::forget(res);
     std::mem::forget(ta);
